@@ -65,6 +65,13 @@ EXTRA_MOLS = {
     'quat-ez': [('Br', None, 0, '', None), ('C', 0, 1, '', 'S'), ('F', 1, 1, '', None), ('N', 1, 1, '', None), ('C', 1, 1, '', None),
                 ('C', 4, 1, '/', None), ('C', 5, 2, '', None), ('Cl', 6, 1, '/', None)],
 }
+EXTRA_MOLS.update({
+    # the marked substituent of a double bond is itself a labelled centre, i.e. a BRACKET atom directly behind the slash
+    'ez-to-centre': [('F', None, 0, '', None), ('C', 0, 1, '/', None), ('C', 1, 2, '', None), ('C', 2, 1, '/', 'R'), ('Cl', 3, 1, '', None),
+                     ('Br', 3, 1, '', None), ('O', 3, 1, '', None)],
+    'ez-to-centre-cis': [('O', None, 0, '', None), ('C', 0, 1, '', 'S'), ('F', 1, 1, '', None), ('N', 1, 1, '', None), ('C', 1, 1, '', None),
+                         ('C', 4, 2, '/', None), ('Cl', 5, 1, '\\', None)],
+})
 MOLS = dict(gr.STEREO_MOLS)
 MOLS.update(EXTRA_MOLS)
 
